@@ -1828,6 +1828,8 @@ class SpaceUpdater(SharedSpaceOperations):
             self._remove_hook(self._graph, child)
 
         for _, v in nx.edge_bfs(self.manager._graph, node):
+            if v in nodes_removed:
+                continue    # a sub space inside the deleted tree
             self._instructions.append(
                 Instruction(self._update_derived_space, (v,))
             )
